@@ -9,12 +9,13 @@ A profile is a dict of weights/probabilities; every property's check tilts the d
 
 DEFAULT = {
     'bodies': {'probe': 40, 'fail': 13, 'incr': 8, 'set': 5, 'call': 9, 'jump': 3, 'switch': 3,
-               'stop': 2, 'stoppipeline': 2, 'stopstepgroup': 2, 'clear': 2, 'clearall': 1, 'pype': 5},
+               'stop': 2, 'stoppipeline': 2, 'stopstepgroup': 2, 'clear': 2, 'clearall': 1, 'pype': 5,
+               'merge': 3, 'default': 2},
     'p_foreach': 0.18, 'p_while': 0.12, 'p_retry': 0.15, 'p_run': 0.15, 'p_skip': 0.10,
     'p_swallow': 0.20, 'p_onerror': 0.10, 'p_simple': 0.04,
     'n_groups': (1, 5), 'n_steps': (1, 5), 'n_pipes': (1, 3),
     'p_handlers': 0.5, 'p_api_groups': 0.35, 'p_fail_when': 0.6, 'p_empty_foreach_literal': 0.0,
-    'p_fmt_groupname': 0.2, 'p_clear_counters': 0.3,
+    'p_fmt_groupname': 0.2, 'p_clear_counters': 0.3, 'p_parser': 0.15,
 }
 
 ERRS = ['ValueError', 'RuntimeError', 'TypeError', 'ZeroDivisionError', 'vfail.CustomError',
@@ -234,6 +235,12 @@ def gen_step(rng, p, pipe, group, idx, targets, handlers, later_pipes, depth_tag
             [['cnt', py(['add', name('cnt'), ['int', 1]])]], [['out1', 'from {ptag}']],
             [['{word}', 1]], [['lst', {'l': [7, '{n}']}]],
             [['a1', 1], ['a2', '{a1}']]])}])
+    elif body in ('merge', 'default'):
+        payload = rng.choice([
+            [['word', 'merged {n}']], [['lst', {'l': [9, '{word}']}]], [['cnt', 7]], [['newkey', {'d': [['a', 1], ['b', '{word}']]}]],
+            [['nested', {'d': [['x', {'l': [1]}]]}], ['nested2', {'d': []}]], [['{word}', 'dyn']], [['flag', None]],
+            [['tup', 'str-over-tuple']], [['missing', '{nokey}']]])
+        inn.append(['contextMerge' if body == 'merge' else 'defaults', {'d': payload}])
     elif body == 'clear':
         ks = rng.sample(['i', 'whileCounter', 'retryCounter', 'call', 'switch', 'cnt', 'word', 'jump', 'arg1'],
                         rng.randrange(1, 4)) if rng.random() < p['p_clear_counters'] + 0.5 else ['word']
@@ -262,6 +269,12 @@ def gen_step(rng, p, pipe, group, idx, targets, handlers, later_pipes, depth_tag
                                            'nokey', {'l': []}])])
         if rng.random() < 0.3:
             cfg.append(['raiseError', rng.choice([True, False])])
+        if rng.random() < 0.3:
+            cfg.append(['pipeArg', rng.choice(['fail', 'fail now', 'a b', 'none', 'x', 'k=v w'])])
+            if rng.random() < 0.3:
+                cfg.append(['skipParse', rng.choice([True, False])])
+        elif rng.random() < 0.1:
+            cfg.append(['skipParse', False])
         if rng.random() < 0.25:
             cfg.append(['groups', rng.choice(['steps', {'l': ['steps', 'g1']}, 'g1'])])
             if rng.random() < 0.5:
@@ -298,6 +311,8 @@ def gen_pipeline(rng, p, pname, later_pipes):
             continue
         steps = [gen_step(rng, p, pname, g, i, targets, hs, later_pipes) for i in range(n_steps)]
         groups.append([g, steps])
+    if rng.random() < p['p_parser']:
+        groups.insert(0, ['context_parser', None])
     return groups, order, handlers
 
 
@@ -322,6 +337,8 @@ def gen_case(rng, profile=None):
     case = {'lib': lib, 'main': 'main', 'dict_in': dict_in, 'jit': rng.choice([[1, 4], [0, 1], [1, 1], [1, 2]])}
     if rng.random() < 0.08:
         case['dict_in'] = None
+    if rng.random() < 0.12:
+        case['args_in'] = rng.choice([['fail'], ['a', 'b'], ['none'], [], ['x=1', 'fail']])
     if rng.random() < p['p_api_groups']:
         k = rng.randrange(1, min(3, len(main_order)) + 1)
         case['groups'] = rng.sample(main_order, k) if rng.random() < 0.7 else [rng.choice(main_order + ['absent'])]
